@@ -64,7 +64,8 @@ class Layout:
             self.no_overlap.append(z3.Implies(f.has_addr, z3.UGE(f.addr, prev_end)))
             self.pad.append(z3.If(f.has_addr, f.addr - prev_end, self.V(0)))
             self.fsize.append(fsize); self.falign.append(falign); self.off.append(off); self.is_arr.append(is_arr)
-            self.emitted.append(z3.Not(z3.And(fsize == 0, is_arr)))
+            # an unnamed (`_`) zero-length array is empty padding and is not emitted; every other field is
+            self.emitted.append(z3.Not(z3.And(fsize == 0, is_arr, z3.Not(f.named))))
             prev_end = off + fsize
         self.natural_end = prev_end
         self.fits = z3.Implies(self.has_size, z3.ULE(self.natural_end, self.size))
